@@ -31,6 +31,12 @@ UNITS = {
     "gluekdf": {"driver": None, "harness": None, "gens": None, "props": {
         "C10": ["CxVerif.Props.C10.GlueTieKdf"], "C11": ["CxVerif.Props.C11.GlueTieArgon2"],
         "C20": ["CxVerif.Props.C10.GlueTieKdf", "CxVerif.Props.C11.GlueTieArgon2"]}},
+    "gluesimd": {"driver": None, "harness": None, "gens": None, "props": {
+        "C16": ["CxVerif.Props.C16.GlueTieSimd", "CxVerif.Props.C16.GlueTieSimdSha", "CxVerif.Props.C16.GlueTieSimdBlake2", "CxVerif.Util.IntrinsicsHwTest"],
+        "C03": ["CxVerif.Props.C16.GlueTieSimd"],
+        "C01": ["CxVerif.Props.C16.GlueTieSimdSha", "CxVerif.Props.C16.GlueTieSimdBlake2"]}},
+    "gluecurve": {"driver": None, "harness": None, "gens": None, "props": {
+        p: ["CxVerif.Props.C15.GlueTieCurve"] for p in ("C12", "C13", "C14", "C15", "C17", "C19")}},
     "hashlen": {"driver": "HashLen", "harness": "ops_hashlen", "gens": "hashlen",
                 "props": {"C01": ["CxVerif.Props.C20.HashLen"], "C20": ["CxVerif.Props.C20.HashLen"]}},
     "long": {"driver": "Long", "harness": "ops_long", "gens": "long", "props": {}},
@@ -45,13 +51,13 @@ UNITS = {
     "sha2": {"driver": "Sha2", "harness": "ops_sha2", "gens": "sha2",
              "props": {"C01": ["CxVerif.Props.C01.Sha2"], "C02": ["CxVerif.Props.C02.Sha2"]}},
     "mackdf": {"driver": "MacKdf", "harness": "ops_mackdf", "gens": "mackdf",
-               "props": {"C08": ["CxVerif.Props.C08.Hmac"], "C09": ["CxVerif.Props.C09.MacDigest"], "C10": ["CxVerif.Props.C10.Kdf", "CxVerif.Props.C10.Scrypt"]}},
+               "props": {"C08": ["CxVerif.Props.C08.Hmac", "CxVerif.Props.C08.HmacBlake2"], "C09": ["CxVerif.Props.C09.MacDigest"], "C10": ["CxVerif.Props.C10.Kdf", "CxVerif.Props.C10.Scrypt", "CxVerif.Props.C08.HmacBlake2"]}},
     "sha3": {"driver": "Sha3", "harness": "ops_sha3", "gens": "sha3",
              "props": {"C01": ["CxVerif.Props.C01.Sha3"], "C02": ["CxVerif.Props.C02.Sha3"]}},
     "stream": {"driver": "Stream", "harness": "ops_stream", "gens": "stream",
                "props": {"C03": ["CxVerif.Props.C03.Stream", "CxVerif.Props.C03.KernelTie"], "C04": ["CxVerif.Props.C04.Stream"], "C16": ["CxVerif.Props.C16.ChaCha", "CxVerif.Props.C16.KernelTieChaCha"]}},
     "ed25519": {"driver": "Ed25519", "harness": "ops_ed25519", "gens": "ed25519",
-                "props": {"C13": ["CxVerif.Props.C13.Ed25519", "CxVerif.Props.C13.Final"], "C14": ["CxVerif.Props.C14.Ed25519", "CxVerif.Props.C14.VerifyFull", "CxVerif.Props.C14.Final"], "C15": ["CxVerif.Props.C15.Ge", "CxVerif.Props.C15.GroupLaw", "CxVerif.Props.C15.Prime", "CxVerif.Props.C15.Final"]}},
+                "props": {"C13": ["CxVerif.Props.C13.Ed25519", "CxVerif.Props.C13.Final"], "C14": ["CxVerif.Props.C14.Ed25519", "CxVerif.Props.C14.VerifyFull", "CxVerif.Props.C14.Final", "CxVerif.Props.C14.Honest"], "C15": ["CxVerif.Props.C15.Ge", "CxVerif.Props.C15.GroupLaw", "CxVerif.Props.C15.Prime", "CxVerif.Props.C15.Final", "CxVerif.Props.C15.RoundTrip"]}},
     "argon2": {"driver": "Argon2", "harness": "ops_argon2", "gens": "argon2", "props": {"C11": ["CxVerif.Props.C11.Argon2", "CxVerif.Props.C11.Argon2Full", "CxVerif.Props.C11.KernelTie"]}},
     "aead": {"driver": "Aead", "harness": "ops_aead", "gens": "aead",
              "props": {"C06": ["CxVerif.Props.C06.Aead"], "C07": ["CxVerif.Props.C07.Aead"], "C20": ["CxVerif.Props.C20.Aead"]}},
